@@ -280,6 +280,21 @@ func cpxLine(tag string, applied []string, base, schema any, in reflect.Value, i
 			kv = append(kv, "self.in="+vtok(x.Interface()))
 		}
 	}
+	if kind == "nil" || kind == "nilx" {
+		for _, a := range applied {
+			if strings.Contains(a, "owfill") {
+				// a nil-filling Overwrite: what the type's wrapper makes of nil is type-specific (`checksOnNil` is instantiated
+				// as "nil stays nil"); the gen line judges the case
+				return "", false
+			}
+		}
+	}
+	if gt == "ZodFunction" && (kind == "nil" || kind == "nilx") && strings.Contains(checks.String(), "o") {
+		// ZodFunction's Overwrite wrapper turns an accepted nil into a typed nil *any (`checksOnNil` is not nil there), and
+		// convertResult wraps that into a non-nil pointer to a typed nil - a shape `Cpx.Res` cannot express. The region is
+		// judged by the gen line of the same case (known finding function:…:S=nil).
+		return "", false
+	}
 	for _, r := range []string{rin, rpv, rpf} {
 		if strings.HasPrefix(r, "panic:") {
 			return "", false
